@@ -1,6 +1,9 @@
 package corpus
 
-import "fmt"
+import (
+	"fmt"
+	"strings"
+)
 
 const wsPattern = `' ' | '\t' | '\n' | '\r'`
 
@@ -187,6 +190,37 @@ func Fixed() []*Grammar {
 			P("R", Al(Call(A(0), A(2)), "L", `","`, "R"), Al(none, "L")),
 			P("L", Al(Call(A(1)), `"("`, "R", `")"`), Al(Call(T(0)), "id"), Al(Pass(1), `"["`, "L", `"]"`)),
 		}})
+
+	// startrec: the START symbol itself is right-recursive and nests in brackets (a reduction
+	// to the start symbol with end-of-input as lookahead happens below the top of the stack)
+	add(&Grammar{ID: "startrec", Tight: true, Seps: wsSeps,
+		Lex: append(letters(),
+			LexDef{Kind: LexToken, Name: "id", Pattern: `_letter {_letter | _digit}`, Samples: []string{"a", "bc", "x1", "Q"}},
+			ws()),
+		Prods: []*Prod{
+			P("List", Al(Call(T(0)), "id"), Al(Call(T(0), A(2)), "id", `","`, "List"), Al(Call(A(1)), `"("`, "List", `")"`), Al(Call(A(1), A(3)), `"["`, "List", `"]"`, "List")),
+		}})
+
+	// nearactions: actions that differ in nothing but white space inside a string
+	// constant, letter case, a trailing blank, the last byte after a long common
+	// prefix, or the spelling of one and the same value
+	{
+		long := strings.Repeat("0123456789abcdef", 20)
+		item := func(kw, lit, val string) *Alt {
+			return Al(Labelled(900, K(lit, val), T(1)), `"`+kw+`"`, "id")
+		}
+		add(&Grammar{ID: "nearactions", Seps: wsSeps,
+			Lex: append(letters(),
+				LexDef{Kind: LexToken, Name: "id", Pattern: `('x' | 'y' | 'z') {_letter | _digit}`, Samples: []string{"x", "yy", "z9q", "xK"}},
+				ws()),
+			Prods: []*Prod{
+				P("Items", Al(Call(A(0)), "Item"), Al(Call(A(0), A(1)), "Items", "Item")),
+				P("Item",
+					item("ka", `"p q"`, "p q"), item("kb", `"p  q"`, "p  q"), item("kc", "\"p\tq\"", "p\tq"), item("kd", "\"p\\tq\"", "p\tq"),
+					item("ke", `"P Q"`, "P Q"), item("kf", `"p q "`, "p q "), item("kg", `" p q"`, " p q"), item("kh", "`p q`", "p q"),
+					item("ki", `"`+long+`1"`, long+"1"), item("kj", `"`+long+`2"`, long+"2"), item("kk", `"pq"`, "pq"), item("kl", "\"p\u00a0q\"", "p\u00a0q")),
+			}})
+	}
 
 	// longalt: a 12-symbol alternative ($10, $11 next to $1)
 	add(&Grammar{ID: "longalt", Seps: wsSeps,
